@@ -2,6 +2,7 @@ package eng
 
 import (
 	"fmt"
+	"net"
 	"os"
 	"reflect"
 	"sort"
@@ -363,7 +364,7 @@ func RunConfig(tab CfgTable, seed int64, stride int) (runs []CfgRun, viols []drv
 					if given["host"] {
 						for _, h := range uniq {
 							if h.ID == "host" {
-								want = h.Value + ":" + st.Value
+								want = net.JoinHostPort(h.Value, st.Value) // an IPv6 literal goes into brackets
 							}
 						}
 					}
